@@ -175,6 +175,22 @@ func cmdCheck(args []string) int {
 			units = append(units, w.verifySinks(sp))
 		}
 	}
+	for _, sp := range w.cs.frames {
+		if prop == "" || contains(sp.Props, prop) {
+			if cfg.only != "" && !strings.Contains("frame", cfg.only) {
+				continue
+			}
+			units = append(units, w.verifyFrame(sp))
+		}
+	}
+	for _, sp := range w.cs.orders {
+		if prop == "" || contains(sp.Props, prop) {
+			if cfg.only != "" && !strings.Contains("ordered", cfg.only) {
+				continue
+			}
+			units = append(units, w.verifyOrder(sp))
+		}
+	}
 	for _, cl := range w.cs.classified {
 		if prop == "" || contains(cl.Props, prop) {
 			if cfg.only != "" && !strings.Contains(cl.Type, cfg.only) {
